@@ -193,7 +193,7 @@ pub fn inject(rng: &mut Rng, dev: &str, b: &mut [u8], img: &Image) -> Option<Str
             }
             let e = *rng.pick(&cands);
             if dev == "storage_start" {
-                wr32(b, e.off + 116, *rng.pick(&[END, FREE, 1, 7, 0x1234]));
+                wr32(b, e.off + 116, *rng.pick(&[END, FREE, 1, 7, 0x1234, 0xFFFF_FFFD, 0xFFFF_FFFC, 0xFFFF_FFFB, 0xFFFF_FFFA, 0x7FFF_FFFF]));
             } else {
                 wr64(b, e.off + 120, *rng.pick(&[1u64, 64, 4096, 0xFFFF_FFFF]));
             }
@@ -295,6 +295,40 @@ fn deviation_bases(ctx: &Ctx) -> Vec<Base> {
             if let Ok(img) = refparse::parse(&bytes) {
                 let idx = crate::corrupt::index_fields(&img);
                 pool.push(Base { bytes, img, idx, origin: "synthesised with a spare FAT sector, sector count aligned".into() });
+            }
+        }
+    }
+    // library-written images whose mini stream is empty again but whose MiniFAT chain is
+    // still there (every small stream was removed)
+    for v in [cfb::Version::V3, cfb::Version::V4] {
+        if let Ok(mut sess) = crate::engine::Session::create(v, None) {
+            use crate::engine::{OpenHow, Step};
+            use crate::model::Op;
+            let mut ok = true;
+            for st in [
+                Step::HOpen { slot: 0, path: "/small1".into(), how: OpenHow::Create },
+                Step::HWriteAll { slot: 0, len: 700 },
+                Step::HClose { slot: 0 },
+                Step::HOpen { slot: 0, path: "/small2".into(), how: OpenHow::Create },
+                Step::HWriteAll { slot: 0, len: 3000 },
+                Step::HClose { slot: 0 },
+                Step::HOpen { slot: 0, path: "/large".into(), how: OpenHow::Create },
+                Step::HWriteAll { slot: 0, len: 6000 },
+                Step::HClose { slot: 0 },
+                Step::Api(Op::CreateStorage("/dir".into())),
+                Step::Api(Op::RemoveStream("/small1".into())),
+                Step::Api(Op::RemoveStream("/small2".into())),
+            ] {
+                ok &= sess.run(&st).is_none();
+            }
+            let bytes = sess.shared.bytes();
+            if ok {
+                if let Ok(img) = refparse::parse(&bytes) {
+                    if !img.minifat_chain.is_empty() && refparse::check(&img, &bytes).violations.is_empty() {
+                        let idx = crate::corrupt::index_fields(&img);
+                        pool.push(Base { bytes, img, idx, origin: "library-written, mini stream emptied".into() });
+                    }
+                }
             }
         }
     }
